@@ -116,6 +116,59 @@ func funcGrid() []*Scenario {
 	return out
 }
 
+// reexportGrid: an export may be a RE-EXPORTED IMPORT, and imports of all kinds interleave in the exporter's import
+// section: the type an import is matched against is the type of the object at that index of the exporter's index
+// space of that kind (function imports counted among the function imports only).  A defines three functions of
+// different signatures, a global, a memory and a table; B imports them with the non-function imports at every
+// position among the function imports and re-exports each function import in turn; C imports the re-export with
+// each of the three signatures (+ one that none of them has): accepted iff it is the signature of THAT function.
+func reexportGrid() []*Scenario {
+	sigs := []string{">i", ">", ">I"}
+	a := &Desc{Name: "A", Globals: []LGlobal{{VT: tI32, Mut: true, Init: CE{K: 'c', V: 10}}}, Mem: &LMem{Min: 1}, Tables: []LTable{{RT: tFR, Min: 2}},
+		Exports: []Exp{{"g", 'g', 0}, {"mem", 'm', 0}, {"tab", 't', 0}}}
+	for i, sg := range sigs {
+		a.Funcs = append(a.Funcs, LFunc{Sig: sg, Bump: -1, Const: uint32(700 + i)})
+		a.Exports = append(a.Exports, Exp{fmt.Sprintf("f%d", i), 'f', uint32(i)})
+	}
+	others := []Imp{{Mod: "A", Name: "g", Kind: 'g', VT: tI32, Mut: true}, {Mod: "A", Name: "mem", Kind: 'm', Min: 1}, {Mod: "A", Name: "tab", Kind: 't', VT: tFR, Min: 1}}
+	var out []*Scenario
+	for perm := 0; perm < 6; perm++ { // order of A's functions among B's function imports
+		order := [][]int{{0, 1, 2}, {0, 2, 1}, {1, 0, 2}, {1, 2, 0}, {2, 0, 1}, {2, 1, 0}}[perm]
+		for pos := 0; pos <= 3; pos++ { // how many function imports precede the non-function imports
+			for nOther := 1; nOther <= 3; nOther += 2 {
+				var imps []Imp
+				for k, fi := range order {
+					if k == pos {
+						imps = append(imps, others[:nOther]...)
+					}
+					imps = append(imps, Imp{Mod: "A", Name: fmt.Sprintf("f%d", fi), Kind: 'f', Sig: sigs[fi]})
+				}
+				if pos == 3 {
+					imps = append(imps, others[:nOther]...)
+				}
+				b := &Desc{Name: "B", Imports: imps}
+				for k := range order {
+					b.Exports = append(b.Exports, Exp{fmt.Sprintf("h%d", k), 'f', uint32(k)})
+				}
+				sc := &Scenario{Tag: "grid-reexport", Limit: 65536, Ops: []Op{instOp(a), instOp(b)}}
+				n := 0
+				for k := range order {
+					for _, sg := range append(append([]string{}, sigs...), "i>i") {
+						c := &Desc{Name: fmt.Sprintf("C%d", n), Imports: []Imp{{Mod: "B", Name: fmt.Sprintf("h%d", k), Kind: 'f', Sig: sg}}}
+						n++
+						sc.Ops = append(sc.Ops, instOp(c))
+						if sg == sigs[order[k]] {
+							sc.Ops = append(sc.Ops, Op{Kind: "call", Inst: -1, K: 0})
+						}
+					}
+				}
+				out = append(out, sc)
+			}
+		}
+	}
+	return out
+}
+
 type lim struct {
 	min uint32
 	max *uint32
@@ -387,6 +440,11 @@ func randomModule(r *rand.Rand, n int, prev []*planned) *planned {
 				im := Imp{Mod: e.d.Name, Name: x.Name, Kind: 'f', Sig: sigs[x.Idx]}
 				if !mostly {
 					im.Sig = pick(r, allSigs)
+					if r.Intn(2) == 0 && len(sigs) > 1 {
+						// near miss: the signature of ANOTHER function of the exporter's index space (its imports
+						// included): what a linker that looks up the export's type at the wrong index would accept
+						im.Sig = sigs[r.Intn(len(sigs))]
+					}
 				}
 				d.Imports = append(d.Imports, im)
 				p.safe = append(p.safe, e.safe[x.Idx] && im.Sig == sigs[x.Idx])
